@@ -174,6 +174,7 @@ func (e *w6Engine) demoted() bool {
 }
 
 type w6World struct {
+	dirtyImg *gofs.InMemoryFS // crash image of a killed process whose unsynced bytes are still in the page cache
 	slowWrite time.Duration // > 0: every write call takes this much simulated time
 	optEv *w6Event // event of an Append that never returned (blocked after the writer stopped)
 	r   *verifsim.Run
@@ -954,6 +955,9 @@ func (w *w6World) verifyReplay(fs *gofs.InMemoryFS, what string, startOff int64,
 	eng.onCommit = func(off int64) {
 		// a replaying process fsyncs the chunk it reads before it announces a position: what it commits
 		// is durable even when the previous process died with written, unsynced bytes
+		if fs != w.dirtyImg {
+			return // only images that hold written-but-unsynced bytes of a killed process are of interest
+		}
 		if dp, err := w.durablePrefixOf(fs); err == nil && off > dp && !r.Failed() {
 			r.Fail("C18", "commit_beyond_fsync", "reader", "%s: replay delivered Commit(%d) while only %d bytes are durable on disk", what, off, dp)
 		}
@@ -1101,6 +1105,11 @@ func (w *w6World) afterCrash(snap []gofs.SimFile, how string) bool {
 			}
 		}
 	}
+	w.dirtyImg = nil
+	if policy == 0 && !strings.Contains(how, "during-rotation") {
+		w.dirtyImg = img
+	}
+	defer func() { w.dirtyImg = nil }()
 	r.Event("crash", "%s policy=%d files=%d", how, policy, len(files))
 	for _, f := range files {
 		r.Event("crash", "  image file %s size=%d", f.Name, len(f.Content))
